@@ -179,7 +179,7 @@ class TreeCheck(Check):
 # ---- C01 -----------------------------------------------------------------------------------------
 class C01(Check):
     rule = DOC_RULE
-    obligations = [("main", "C01a", "C01_ordered"), ("main", "C01b", "unpadded_pad"), ("main", "C01b", "fill_pad"),
+    obligations = [("main", "PropsFull", "C01_full"), ("main", "C01a", "C01_ordered"), ("main", "C01b", "unpadded_pad"), ("main", "C01b", "fill_pad"),
                    ("main", "C01b", "lineCount_pad"), ("main", "C01b", "pad_app"), ("main", "L2BndS", "parseBlocks_bounds"),
                    ("stream", "BPProof", "next_block_sim"), ("stream", "C08", "C08_stream_eq"), ("main", "Uncond", "parseStream_eq_small"),
                    ("main", "Uncond", "C01_tiling"), ("main", "Tiling", "C01_tiles_prefix"), ("main", "Tiling", "C01_of_total"), ("main", "Tiling", "C01_iff_rest_blank")]
@@ -213,7 +213,7 @@ reg(C01("C01"))
 
 
 class C02(TreeCheck):
-    obligations = [("main", "L2BndS", "parseBlocks_bounds"), ("main", "C01a", "C01_ordered"), ("main", "NoPanicAll", "parseBlocks_no_panic"),
+    obligations = [("main", "PropsFull", "C02_full"), ("main", "L2BndS", "parseBlocks_bounds"), ("main", "C01a", "C01_ordered"), ("main", "NoPanicAll", "parseBlocks_no_panic"),
                    ("main", "BlockSpans", "parseBlocks_block_spans"), ("main", "BlockSpans", "parseFull_block_spans"),
                    ("main", "InlineSpans", "parseInlines_spans"), ("main", "InlineSpans", "parseInlines_spans_reduction"), ("main", "InlineSpans", "parseInlines_spans_literal_false"),
                    ("main", "SpanHyp", "entriesOKX_eq"), ("main", "SpanHyp", "rewrite_roots_inline_spans"), ("main", "EntriesOK", "parseBlocks_entries_basic"), ("main", "C02Full", "C02_full"), ("main", "C02Full", "C02_structure"), ("main", "RootIndentDrv", "rootIndent_all"), ("main", "C02Structure", "C02_of_rootIndent_and_boundaries"), ("main", "C02Structure", "C02_structure_rootIndent_partial"), ("main", "DefSpans", "defSpans_all"), ("main", "C02Boundaries", "C02_boundaries"), ("main", "C02Boundaries", "C02_boundaries_strong"), ("main", "C02Boundaries", "C02_of_structure"), ("main", "ComposeC02", "C02_of_structure_and_boundaries"), ("main", "ComposeC02", "C02_structure_partial"), ("main", "ComposeSpans2", "parseBlocks_inline_spans"), ("main", "ComposeSpans2", "parseBlocks_entriesOKroots"), ("main", "ComposeSpans2", "parseBlocks_paraTail"), ("main", "ComposeSpans", "parseBlocks_inline_spans_partial"), ("main", "ComposeSpans", "parseBlocks_entriesOKroots_partial"), ("main", "Total", "parseBlocks_total")]
@@ -237,7 +237,7 @@ reg(C02("C02"))
 
 
 class C03(TreeCheck):
-    obligations = [("main", "ComposeC03", "C03_full"), ("main", "ComposeC03", "C03_partial"), ("main", "ComposeCols", "parseBlocks_colsOK"), ("main", "LinesAccounted", "no_duplication"), ("main", "LinesAccounted", "no_loss"), ("main", "LinesAccounted", "cover_le_one"), ("main", "LinesAccounted", "no_loss_raw_all"),
+    obligations = [("main", "PropsFull", "C03_full"), ("main", "ComposeC03", "C03_full"), ("main", "ComposeC03", "C03_partial"), ("main", "ComposeCols", "parseBlocks_colsOK"), ("main", "LinesAccounted", "no_duplication"), ("main", "LinesAccounted", "no_loss"), ("main", "LinesAccounted", "cover_le_one"), ("main", "LinesAccounted", "no_loss_raw_all"),
                    ("main", "LAFull", "C03_no_dup_partial"), ("main", "CoverInline", "parseInlines_coverage_partial"), ("main", "CoverInline", "parseInlines_C03"), ("main", "CoverInline", "parseInlines_coverage_refuted"), ("main", "CoverBlocks", "parseInlines_no_dup"), ("main", "L2BndS", "parseBlocks_bounds"), ("main", "NoUnpFull", "C05_noUnparsed")]
     proj = staticmethod(proj_leaves)
     what = "leaf spans"
@@ -248,7 +248,7 @@ reg(C03("C03"))
 
 
 class C05(TreeCheck):
-    obligations = [("main", "C05Full", "C05_full"), ("main", "C05c", "parseBlocks_np"), ("main", "ComposeGram", "parseFull_gramI"), ("main", "ComposeGram", "parseFull_gramI_statement_proved"), ("main", "ComposeGram", "parseBlocks_entOKDoc"), ("main", "InlineFuel", "C04_gramI_doc"), ("main", "InlineFuel", "C04_titleNeedsDest"), ("main", "GramInline", "parseFull_gramI_partial"), ("main", "GramInline", "parseFull_noLinkInLink"), ("main", "GramInline", "parseFull_kinds"), ("main", "GramInline", "parseFull_gramI_titleDest_partial"), ("main", "GIB", "parseBlocks_noMixed"), ("main", "TieKinds", "tie_kinds"), ("main", "L2CCfull", "parseFull_contain"), ("main", "L2Kind2", "parseBlocks_kinds"), ("main", "NoUnpFull", "C05_noUnparsed"),
+    obligations = [("main", "PropsFull", "C05_full"), ("main", "C05Full", "C05_full"), ("main", "C05c", "parseBlocks_np"), ("main", "ComposeGram", "parseFull_gramI"), ("main", "ComposeGram", "parseFull_gramI_statement_proved"), ("main", "ComposeGram", "parseBlocks_entOKDoc"), ("main", "InlineFuel", "C04_gramI_doc"), ("main", "InlineFuel", "C04_titleNeedsDest"), ("main", "GramInline", "parseFull_gramI_partial"), ("main", "GramInline", "parseFull_noLinkInLink"), ("main", "GramInline", "parseFull_kinds"), ("main", "GramInline", "parseFull_gramI_titleDest_partial"), ("main", "GIB", "parseBlocks_noMixed"), ("main", "TieKinds", "tie_kinds"), ("main", "L2CCfull", "parseFull_contain"), ("main", "L2Kind2", "parseBlocks_kinds"), ("main", "NoUnpFull", "C05_noUnparsed"),
                    ("main", "Clos12full", "C12_closure"), ("main", "Rec16", "ordered_number_range"),
                    ("main", "GramBlocks", "parseBlocks_gramBlocks"), ("main", "GramBlocks", "parseFull_gramBlocks")]
     proj = staticmethod(proj_kinds)
@@ -266,7 +266,7 @@ reg(C05("C05"))
 
 
 class C13(TreeCheck):
-    obligations = [("main", "C13All", "C13_full"), ("main", "C13All", "exempt_all"), ("main", "C13Full", "C13_partial"), ("main", "C13Full", "C13_of_exempt"), ("main", "BlockShapesAll", "parseFull_block_shapes"), ("main", "BlockShapesAll", "parseBlocks_block_shapes"), ("main", "BlockShapes", "parseBlocks_block_shapes_partial"), ("main", "BlockShapes", "parseFull_block_shapes_partial"), ("main", "BlockShapes", "parseFull_block_shapes_prefill_partial"), ("main", "BlockShapesNul", "parseFull_block_shapes_aligned_partial"), ("main", "ShapesCS", "parseCodeSpan_shape"), ("main", "ShapesA", "parseAutolink_shape"), ("main", "ShapesA", "parseCharacterEscape_shape"), ("main", "ShapesA", "parseHardLineBreakSpace_hard_iff"), ("main", "ShapesHT", "parseHTMLTag_shape"), ("main", "ShapesA", "parseDelimiterRun_shape"), ("main", "ShapesComp3", "parseInlines_codespan_shapes_partial"), ("main", "ComposeShapes", "parseBlocks_inline_shapes"), ("main", "ComposeShapes", "parseBlocks_shapeHyp"), ("main", "InlineShapes", "parseInlines_shapes"), ("main", "ShapeHyp", "bikOKX'_eq"), ("main", "ShapeHyp", "rewrite_roots_inline_shapes"),
+    obligations = [("main", "PropsFull", "C13_full"), ("main", "C13All", "C13_full"), ("main", "C13All", "exempt_all"), ("main", "C13Full", "C13_partial"), ("main", "C13Full", "C13_of_exempt"), ("main", "BlockShapesAll", "parseFull_block_shapes"), ("main", "BlockShapesAll", "parseBlocks_block_shapes"), ("main", "BlockShapes", "parseBlocks_block_shapes_partial"), ("main", "BlockShapes", "parseFull_block_shapes_partial"), ("main", "BlockShapes", "parseFull_block_shapes_prefill_partial"), ("main", "BlockShapesNul", "parseFull_block_shapes_aligned_partial"), ("main", "ShapesCS", "parseCodeSpan_shape"), ("main", "ShapesA", "parseAutolink_shape"), ("main", "ShapesA", "parseCharacterEscape_shape"), ("main", "ShapesA", "parseHardLineBreakSpace_hard_iff"), ("main", "ShapesHT", "parseHTMLTag_shape"), ("main", "ShapesA", "parseDelimiterRun_shape"), ("main", "ShapesComp3", "parseInlines_codespan_shapes_partial"), ("main", "ComposeShapes", "parseBlocks_inline_shapes"), ("main", "ComposeShapes", "parseBlocks_shapeHyp"), ("main", "InlineShapes", "parseInlines_shapes"), ("main", "ShapeHyp", "bikOKX'_eq"), ("main", "ShapeHyp", "rewrite_roots_inline_shapes"),
                    ("main", "EntriesOK", "parseBlocks_entries_ok_partial"), ("main", "EntriesOK", "parseFull_codespan_shapes"), ("main", "EntDefs", "parseBlocks_entries_ok_statement_false"), ("main", "Shapes", "hardbreak_line_shape"), ("main", "Shapes", "codespan_shapes_statement_false"), ("main", "Rec16", "parseListMarker_sound"), ("main", "Rec17", "parseCodeFence_sound"), ("recog", "ATXProof", "parseATXHeading_correct"),
                    ("main", "Rec15", "parseSetext_correct")]
     proj = staticmethod(proj_kindspans)
@@ -305,7 +305,7 @@ def hostile(seed, n):
 
 class C04(Check):
     rule = DOC_RULE + "; plus hostile inputs: nesting hundreds deep, every construct left unterminated at end of input, invalid UTF-8, NUL and CR runs"
-    obligations = [("main", "InlineFuelAll", "parseFull_total"), ("main", "InlineFuelAll", "parseFull_fuel_adequate"), ("main", "InlineFuelAll", "parseFullG_eq"), ("main", "InlineFuel", "C04_parseInlines_all_fuels"), ("main", "InlineFuel", "C04_parseInlines_fuel_independent"), ("main", "InlineFuel", "C04_processEmphasis_adequate"), ("main", "InlineFuel", "C04_parseInlines_all_fuels_empty"), ("main", "EntriesOK", "parseBlocks_entries_ok_partial"), ("main", "Uncond", "C04_block_layer_total"), ("main", "Total", "parseBlocks_total"), ("main", "NoPanicAll", "parseBlocks_no_panic"), ("main", "RecBounds", "atx_bounds"), ("main", "CursorX", "consume_all"),
+    obligations = [("main", "PropsFull", "C04_block_layer"), ("main", "InlineFuelAll", "parseFull_total"), ("main", "InlineFuelAll", "parseFull_fuel_adequate"), ("main", "InlineFuelAll", "parseFullG_eq"), ("main", "InlineFuel", "C04_parseInlines_all_fuels"), ("main", "InlineFuel", "C04_parseInlines_fuel_independent"), ("main", "InlineFuel", "C04_processEmphasis_adequate"), ("main", "InlineFuel", "C04_parseInlines_all_fuels_empty"), ("main", "EntriesOK", "parseBlocks_entries_ok_partial"), ("main", "Uncond", "C04_block_layer_total"), ("main", "Total", "parseBlocks_total"), ("main", "NoPanicAll", "parseBlocks_no_panic"), ("main", "RecBounds", "atx_bounds"), ("main", "CursorX", "consume_all"),
                    ("walk", "W2P", "run_refines_spec"), ("stream", "ReaderProof", "readline_sim"), ("misc", "Sticky", "C20_healthy")]
     assumptions = ["partial: proved: the block layer is total for every input (Total.parseBlocks_total: parseBlocks never reports a panic site and never runs out of any of its fuels: outer loop, line loop, descendOpenBlocks, openNewBlocks, codePoint reader), Walk terminates with fuel 2*size+1, readline terminates under any schedule, the renderer/formatter models are total by construction; the inline parser is total as well: for every input, every leaf the inline parser runs on and every matcher, running it with ANY fuels above explicit linear bounds gives the model's result, i.e. none of its fuels (reader loops, label normalisation, process-emphasis, tokeniser loop, entry loop, tree walks of Extract/Rewrite) is ever exhausted (InlineFuelAll.parseFull_fuel_adequate, parseFullG_eq, parseFull_total); so on the model the whole parse is total for every input; what remains observed rather than proved is that the Go loops terminate the way the fuelled model loops do (the tie), under the 20 s watchdog",
                    "'does not loop forever' on the implementation is a 20 s watchdog per case"]
@@ -439,7 +439,7 @@ def filter_fam_corr(cases):
 
 class C17(Check):
     rule = "raw-HTML stressors (comments, CDATA, declarations, processing instructions, stray '<', case mixes, raw-text element names) as token soup, plus the general document stream; predicates GFM, reject-all, reject-none and two name sets containing the raw-text elements"
-    obligations = [("filter", "Filter", "filter_relaxed"), ("filter", "Filter", "filter_none_id"), ("filter", "Filter", "filter_lt_ok"), ("filter", "TokProof", "start_tag_origin"),
+    obligations = [("main", "PropsFull", "C17_chkDoc"), ("filter", "Filter", "filter_relaxed"), ("filter", "Filter", "filter_none_id"), ("filter", "Filter", "filter_lt_ok"), ("filter", "TokProof", "start_tag_origin"),
                    ("filter", "TokProof", "no_rejected_start"), ("filter", "TokProof", "prefix_closed_names"), ("main", "C17doc", "C17_only_lt_escaped"),
                    ("main", "C17tags", "C17_no_rejected_start_doc_partial"), ("main", "C17tags", "C17_no_rejected_start_renderDoc_partial"),
                    ("main", "C17tags", "C17_no_rejected_start_doc_statement_false"), ("main", "C17exact", "chkB_exact"), ("main", "C17exact", "chkB_setP"),
@@ -628,7 +628,7 @@ def nocr_docs(seed, tier, quick, thorough):
 
 class C14(Check):
     rule = DOC_RULE + "; documents without CR, each also with LF->CRLF, LF->CR and an appended final newline; every block kind left open at end of input"
-    obligations = [("stream", "C14b", "skip_blank_lines"), ("stream", "C14b", "nb_shift"), ("main", "Rec15", "parseSetext_correct"), ("recog", "TB", "parseThematicBreak_correct"),
+    obligations = [("main", "PropsFull", "C14_padding"), ("main", "PropsFull", "C14_final_newline"), ("main", "PropsFull", "C14_crlf_nobracket"), ("main", "PropsFull", "C14_crlf_limit"), ("stream", "C14b", "skip_blank_lines"), ("stream", "C14b", "nb_shift"), ("main", "Rec15", "parseSetext_correct"), ("recog", "TB", "parseThematicBreak_correct"),
                    ("recog", "ATXProof", "parseATXHeading_correct"),
                    ("main", "EolInv", "recognizers_eol_invariant"), ("main", "EolInv", "recognizers_eolRun_invariant"),
                    ("main", "BlankPrefix", "parseBlocks_blank_prefix_partial"), ("main", "BlankPrefix", "skipLoop_blank_prefix_partial"),
